@@ -322,18 +322,46 @@ func c15Fnv(data []byte) uint64 {
 	return f.Sum64()
 }
 
-func c15New(cfg verifh.Cfg) *ConsistentHash {
+// c15HashFault: the k-th call of the hash func (counted from arming) does not return
+type c15HashFault struct {
+	armed bool
+	left  int
+	kind  string
+}
+
+func (hf *c15HashFault) wrap(f Func) Func {
+	if hf == nil {
+		return f
+	}
+	return func(data []byte) uint64 {
+		if hf.armed {
+			if hf.left == 0 {
+				hf.armed = false
+				c15Fault(hf.kind)
+			}
+			hf.left--
+		}
+		return f(data)
+	}
+}
+
+func c15New(cfg verifh.Cfg) *ConsistentHash { return c15NewF(cfg, nil) }
+
+func c15NewF(cfg verifh.Cfg, hf *c15HashFault) *ConsistentHash {
 	if cfg.Str("ctor", "default") == "default" {
 		return NewConsistentHash()
 	}
 	replicas := cfg.Int("replicas", 0)
 	switch cfg.Str("hash", "murmur") {
 	case "fnv":
-		return NewCustomConsistentHash(replicas, c15Fnv)
+		return NewCustomConsistentHash(replicas, hf.wrap(c15Fnv))
 	case "coll":
 		m := uint64(cfg.Int("mod", 64))
-		return NewCustomConsistentHash(replicas, func(data []byte) uint64 { return c15Fnv(data) % m })
+		return NewCustomConsistentHash(replicas, hf.wrap(func(data []byte) uint64 { return c15Fnv(data) % m }))
 	default:
+		if hf != nil {
+			return NewCustomConsistentHash(replicas, hf.wrap(Hash))
+		}
 		return NewCustomConsistentHash(replicas, nil)
 	}
 }
@@ -691,10 +719,67 @@ func c15Ops(r *verifh.Rng, pop []string, nops int, present *[]string, sep string
 	return ops
 }
 
+// c15SelfColl: rings in which ONE node's virtual nodes collide with each other (hash range far below the replica
+// count: mod 7 … 64 with 100+ replicas): slots list the node several times, keys hold duplicates; adds with other counts,
+// removals and re-adds must keep the multiplicities exact (the class of seeded C15-9)
+func c15SelfColl(r *verifh.Rng) []verifh.Section {
+	var secs []verifh.Section
+	for i := 0; i < verifh.Scale(6, 40); i++ {
+		cfg := fmt.Sprintf("ctor=custom hash=coll mod=%d replicas=%d probes=%s", r.Pick(3, 7, 16, 64), r.Pick(0, 100, 128),
+			strings.Join(c15Probes(r, verifh.Scale(48, 64)), ","))
+		pop := c15Pop(r)
+		var ops []string
+		for j := r.Range(4, 10); j > 0; j-- {
+			n := pop[r.Intn(len(pop))]
+			switch r.Intn(5) {
+			case 0:
+				ops = append(ops, "remove "+n)
+			case 1:
+				ops = append(ops, "add "+n)
+			default:
+				// few virtual nodes: whether they collide with each other or not varies from node to node
+				ops = append(ops, fmt.Sprintf("addr %s %d", n, r.Pick(2, 3, 5, 9, 20, 64, 100)))
+			}
+		}
+		secs = append(secs, verifh.Section{Cfg: cfg, Ops: ops})
+	}
+	return secs
+}
+
+// c15HashFaults: the hash func panics / exits at its k-th call inside an operation (first call, inside the removal loop
+// of a member, inside the insertion loop); always the LAST operation of its section: the ring is broken afterwards by
+// design of the code (no rollback), what the model says about the state is compared
+func c15HashFaults(r *verifh.Rng) []verifh.Section {
+	var secs []verifh.Section
+	for i := 0; i < verifh.Scale(8, 40); i++ {
+		R := r.Pick(100, 100, 110)
+		cfg := fmt.Sprintf("ctor=custom hash=%s mod=%d replicas=%d probes=%s", r.PickS("fnv", "murmur", "coll"), r.Pick(64, 1024, 65536), R,
+			strings.Join(c15Probes(r, 32), ","))
+		pop := c15Pop(r)
+		var present []string
+		ops := c15Ops(r, pop, r.Range(1, 5), &present, " ", false, R)
+		n := pop[r.Intn(len(pop))]
+		k := r.Pick(0, 0, 1, 2, 5, 50, 99, 100, 101, 150, 199, 205, 400)
+		kind := r.PickS("err", "str", "rt", "exit")
+		switch r.Intn(3) {
+		case 0:
+			ops = append(ops, fmt.Sprintf("hadd %s %d %s", n, k, kind))
+		case 1:
+			ops = append(ops, fmt.Sprintf("haddr %s %d %d %s", n, r.Pick(0, 3, 20, 100, 150), k, kind))
+		default:
+			ops = append(ops, fmt.Sprintf("haddw %s %d %d %s", n, r.Pick(1, 50, 100, 150), k, kind))
+		}
+		secs = append(secs, verifh.Section{Cfg: cfg, Ops: ops})
+	}
+	return secs
+}
+
 func c15Gen(r *verifh.Rng) []verifh.Section {
 	// consecutive seeds of verifh.NewRng are one draw apart on the same stream: fork for independent streams
 	r = r.Fork()
 	secs := c15Fixed()
+	secs = append(secs, c15SelfColl(r)...)
+	secs = append(secs, c15HashFaults(r)...)
 	nsec := verifh.Scale(80, 800)
 	for i := 0; i < nsec; i++ {
 		cfg, R := c15Cfg(r)
@@ -880,7 +965,8 @@ func c15Start(t *testing.T) func(cfg verifh.Cfg) (func(op []string) string, func
 }
 
 func c15StartCfg(t *testing.T, cfg verifh.Cfg) (func(op []string) string, func()) {
-	h := c15New(cfg)
+	hf := &c15HashFault{}
+	h := c15NewF(cfg, hf)
 	// sequential twin: receives the same operations, is never touched by two goroutines; it provides the
 	// implementation's OWN sequential answers that concurrent observations are compared with
 	h2 := c15New(cfg)
@@ -976,6 +1062,34 @@ func c15StartCfg(t *testing.T, cfg verifh.Cfg) (func(op []string) string, func()
 				track([]string{"remove", plain[1]})
 			}
 			return fmt.Sprintf("P=%s locked=%d %s", res, lockState(), final())
+		}
+		if len(op) >= 4 && (op[0] == "hadd" || op[0] == "haddr" || op[0] == "haddw") {
+			// the k-th hash func call of the operation does not return (under the write lock, inside a loop)
+			plain := append([]string{op[0][1:]}, op[1:len(op)-2]...)
+			hf.left, hf.kind, hf.armed = verifh.Atoi(op[len(op)-2]), op[len(op)-1], true
+			ok := true
+			res := c15Faulty(func() { ok = c15Apply(h, plain) })
+			hf.armed = false
+			if !ok {
+				return "bad-op"
+			}
+			if res == "ok" {
+				if !c15Apply(h2, plain) {
+					return "bad-op"
+				}
+				track(plain)
+				return fmt.Sprintf("P=ok locked=%d %s", lockState(), final())
+			}
+			locked := lockState()
+			if locked != 0 {
+				return fmt.Sprintf("P=%s locked=1", res)
+			}
+			g := make([]string, len(probes))
+			for i, p := range probes {
+				g[i] = c15Get(h, p)
+			}
+			nk, nr, nn, ck, rk := c15Digest(h)
+			return fmt.Sprintf("P=%s locked=0 nk=%d nr=%d nn=%d ck=%d rk=%d g=%s", res, nk, nr, nn, ck, rk, strings.Join(g, ","))
 		}
 		if len(op) == 2 && op[0] == "get" {
 			return c15Get(h, c15Value(op[1]))
